@@ -250,12 +250,16 @@ SPECS["C15"] = {
     "shrink_budget": 40,
     "nontrivial": lambda c: any(t in c["tags"] for t in (
         "fragmented-read", "partial-write", "read-pending", "write-pending", "cut", "hand-written",
-        "unportable-kind", "full", "end-after-drop", "large-body", "sink-closed")),
+        "unportable-kind", "full", "end-after-drop", "large-body", "sink-closed", "flush-pending")),
     "rule": "one script = one direction of one shipped transport: codec in {bincode, json} through the real "
             "tarpc::serde_transport::new(Framed::new(io, LengthDelimitedCodec::new()), codec) over a scripted in-memory "
             "byte stream (cyclic write-acceptance pattern and cyclic read-chunk pattern: byte-at-a-time, frame-straddling, "
             "coalesced, with Pending results in between; optionally the stream is cut inside its last frame; the writing end "
             "is either dropped or closed with Sink::poll_close and kept alive - the medium records poll_shutdown and the "
+            "reader sees end-of-stream only after a shutdown or a drop; half of the framed scripts run over a stream that "
+            "STAGES writes internally (BufWriter/TLS-like): poll_write fills a staging buffer, poll_flush answers Pending 0..3 "
+            "times and then moves it to the wire, staged bytes are lost when the writer is dropped; OFrame is what reached "
+            "the WIRE when the transport's flush returned Ready - the "
             "reader sees end-of-stream only after a shutdown or a drop), or "
             "transport::channel::{bounded(1..3), unbounded}; 1..7 messages (requests/cancels or ok/err responses; ids and "
             "durations biased to 0, 250, 251, 2^16, 2^32, 2^64-1; every stable io::ErrorKind; empty, multi-byte UTF-8, "
@@ -768,7 +772,10 @@ SPECS["C16"] = {
             "2^36-1 ms +- 1, 3 years, 100 years, year 9999 +- 1 s, i64::MAX s +- 1, u64::MAX} x nanos {0, 1, 10^9 - 1, 10^9, "
             "2 * 10^9 - 1, u32::MAX} or omitted (JSON), echo or never-ending handlers, reuse of ids in flight, floods of 2..300 "
             "duplicates, cancels for used and never-used ids (boundary ids 0, 250, 251, 2^16, 2^32, 2^64 - 1), always ending "
-            "with a probe request that must be served; CLIENT (client::new dispatch): calls whose deadline is now +/- the same "
+            "with a probe request that must be served; a third of the server and client scripts START with a quiet "
+            "connection age from {0, 1, 65, 100, 300, 429 days} (both clocks advance, no timer armed or fired, so the timer "
+            "wheel lags the clock - all inside dq_env, whose limit is 430.36 days) followed by a request / local call whose "
+            "deadline is 2, 3, 100 or 285 years away (timer clamped to MAX_TIMEOUT: age + clamp must fit the wheel); CLIENT (client::new dispatch): calls whose deadline is now +/- the same "
             "durations, responses for in-flight and never-used ids, a final probe call; STREAM: 1..3 frames (valid payloads, "
             "bit flips, truncated / random / extended payloads), unframed garbage (oversize headers, random bytes, short "
             "tails), the stream cut inside its last frame at 1, 2, 3, 4, 5, 6, 9 or 17 bytes, into both decoders under "
@@ -778,7 +785,8 @@ SPECS["C16"] = {
             "the Instant range, a carrying nanos value, an omitted deadline, a duplicate flood, a deadline in the past, "
             "garbage, a cut, or a payload the codec rejects; distinct = distinct script text; thorough adds the bounded-"
             "exhaustive family: all 16 x 6 (secs, nanos) pairs x 3 subscribers x 2 codecs for the server and 16 x 2 for the "
-            "client, and every cut position 1..39 of a two-frame stream under both codecs",
+            "client, every quiet age x every far deadline (server and client, both codecs), and every cut position 1..39 "
+            "of a two-frame stream under both codecs",
     "trusted_base": COMMON_TB + WIRE_TB + [
         "panic detection: std::panic::catch_unwind around every poll of tarpc code, with the panic hook silenced",
     ],
@@ -808,7 +816,10 @@ SPECS["C16"] = {
         "wall clock: SystemTime::now() is not before 1970-01-01 (wall_env)",
         "timer queue lag: when a request arrives, the endpoint's DelayQueue was created, or last fired a timer, at most "
         "dq_lag_max = 2^36 - 1 - 31 536 000 000 = 37 183 476 735 ms (about 430 days) earlier (dq_env); beyond it "
-        "DelayQueue::insert panics although the timeout is clamped (C16_arm_lag_refuted)",
+        "DelayQueue::insert panics although the timeout is clamped (C16_arm_lag_refuted, C16_aged_lag_refuted); the "
+        "generator's quiet ages stay at or below 429 days (C16_std_env_aged_ok: up to 37 183 476 s)",
+        "the timer wheel is not ahead of the clock by 10 s or more and the queue is younger than u64::MAX ms (wheel_env; "
+        "physically always true; necessary: C16_wheel_env_necessary)",
         "std::time::Instant::now() and tokio's clock agree (both follow the harness's virtual clock)",
     ],
 }
